@@ -8,9 +8,10 @@
           Its premise is discharged on the generated tables: C07_handlers_write_no_shared_state.
     (ii)  C07_lockset_* — race_pairs over the generated tables: empty for the asset state, equal to
           the recorded finding for the ingester manager.
-    (iii) C07_find_asset / C07_find_rep — the two look-ups that range over Go maps, modelled as
-          relations (any iteration order): functions only under prefix-freeness / with the repaired
-          pattern; refuted in general (two findings).
+    (iii) C07_find_asset / C07_find_rep — the two look-ups that range over Go maps, modelled with
+          an arbitrary iteration order: functions of the URL for the code as it is now (longest
+          matching asset path; anchored quoted pattern, under a stated hypothesis on the media
+          templates); for the code as found both are refuted (two findings, both fixed).
     Not proved here: that the code between look-up and response (LiveMPD, createOutSeg, …) is the
     pure function the other properties' models say it is — those models have no state argument
     (C01–C06, C09–C14), and the tie to the code is this property's request mix (byte comparison
@@ -114,61 +115,77 @@ Proof. vm_compute. repeat split.
 Qed.
 Print Assumptions C07_lockset_ingester.
 
-(** * (iii) The look-ups that range over Go maps *)
+(** * (iii) The look-ups that range over Go maps
 
-(** findAsset as found returns exactly one of the matching asset paths — any of them. *)
-Theorem C07_find_asset_any : forall assets uri a,
-  find_asset_rel assets uri (Some a) <-> In a assets /\ asset_matches uri a = true.
-Proof. exact find_asset_rel_some.
-Qed.
-Print Assumptions C07_find_asset_any.
+    A range over a Go map is modelled as a run over an arbitrary permutation of the keys.
+    The checked tree contains the fix commits 5fe544f (findAsset keeps the longest matching path)
+    and a92686d (media pattern quoted and anchored); [find_asset_longest] and
+    [media_match_anchored] are the models of the code as it is, [find_asset_rel] /
+    [media_search] of the code as it was found. *)
 
-(** It is a function of the URI when no asset directory lies below another one. *)
-Theorem C07_find_asset : forall assets uri r1 r2,
-  prefix_free assets -> find_asset_rel assets uri r1 -> find_asset_rel assets uri r2 -> r1 = r2.
-Proof. exact find_asset_function.
+(** findAsset is a function of the URI for every set of asset paths, whatever the iteration order. *)
+Theorem C07_find_asset : forall o1 o2 uri,
+  Permutation o1 o2 -> find_asset_longest o1 uri = find_asset_longest o2 uri.
+Proof. exact find_asset_longest_order_independent.
 Qed.
 Print Assumptions C07_find_asset.
 
-(** In general it is not (finding c07-nested-assets): assets x and x/y, request x/y/Manifest.mpd. *)
-Theorem C07_find_asset_refuted :
+(** It returns a matching path of maximal length, and "not found" exactly when no path matches. *)
+Theorem C07_find_asset_spec : forall order uri,
+  match find_asset_longest order uri with
+  | None => forall b, In b order -> asset_matches uri b = false
+  | Some a => In a order /\ asset_matches uri a = true /\
+              forall b, In b order -> asset_matches uri b = true -> (length b <= length a)%nat
+  end.
+Proof. exact find_asset_longest_max.
+Qed.
+Print Assumptions C07_find_asset_spec.
+
+(** As found (first match in map order) it returned any of the matching paths ... *)
+Theorem C07_find_asset_asfound_any : forall assets uri a,
+  find_asset_rel assets uri (Some a) <-> In a assets /\ asset_matches uri a = true.
+Proof. exact find_asset_rel_some.
+Qed.
+Print Assumptions C07_find_asset_asfound_any.
+
+(** ... which made it a function only when no asset directory lies below another one
+    (there the repair changes nothing) ... *)
+Theorem C07_find_asset_asfound_prefix_free : forall assets uri r,
+  prefix_free assets -> find_asset_rel assets uri r -> r = find_asset_longest assets uri.
+Proof. exact find_asset_longest_agrees.
+Qed.
+Print Assumptions C07_find_asset_asfound_prefix_free.
+
+(** ... and not in general (fixed finding c07-nested-assets): assets x and x/y, request x/y/Manifest.mpd. *)
+Theorem C07_find_asset_asfound_refuted :
   let assets := [str_of "x"; str_of "x/y"] in
   let uri := str_of "x/y/Manifest.mpd" in
   find_asset_rel assets uri (Some (str_of "x")) /\ find_asset_rel assets uri (Some (str_of "x/y")).
 Proof. exact find_asset_nested_refuted.
 Qed.
-Print Assumptions C07_find_asset_refuted.
+Print Assumptions C07_find_asset_asfound_refuted.
 
-(** The repaired look-up (longest match) is a function for every set of asset paths, and agrees
-    with the one found wherever that one was a function. *)
-Theorem C07_find_asset_longest : forall o1 o2 uri,
-  Permutation o1 o2 -> find_asset_longest o1 uri = find_asset_longest o2 uri.
-Proof. exact find_asset_longest_order_independent.
+(** findRepAndSegmentID with the pattern ^QuoteMeta(pre)(\d+)QuoteMeta(suf)$: what it accepts ... *)
+Theorem C07_anchored_pattern : forall pre suf s ds,
+  media_match_anchored pre suf s = Some ds ->
+  s = pre ++ ds ++ suf /\ ds <> [] /\ forallb is_digit ds = true.
+Proof. exact media_match_anchored_spec.
 Qed.
-Print Assumptions C07_find_asset_longest.
+Print Assumptions C07_anchored_pattern.
 
-Theorem C07_find_asset_longest_agrees : forall assets uri r,
-  prefix_free assets -> find_asset_rel assets uri r -> r = find_asset_longest assets uri.
-Proof. exact find_asset_longest_agrees.
+(** ... a segment path is matched by at most one representation, when the representations share
+    the suffix part, the prefix parts end in a non-digit and determine the representation (the
+    usual $RepresentationID$/$Number$.m4s) ... *)
+Theorem C07_find_rep_at_most_one : forall reps seg r r' d d',
+  reps_wf reps -> In r reps -> In r' reps ->
+  media_match_anchored (r_pre r) (r_suf r) seg = Some d ->
+  media_match_anchored (r_pre r') (r_suf r') seg = Some d' ->
+  r_id r = r_id r' /\ d = d'.
+Proof. exact anchored_at_most_one.
 Qed.
-Print Assumptions C07_find_asset_longest_agrees.
+Print Assumptions C07_find_rep_at_most_one.
 
-(** findRepAndSegmentID with the pattern as found (unanchored, unquoted) is not a function even
-    for the usual template $RepresentationID$/$Number$.m4s (finding c07-rep-id-substring):
-    representations "1" and "11", request 11/48.m4s. *)
-Theorem C07_find_rep_refuted :
-  let reps := [rep_of_id "1"; rep_of_id "11"] in
-  let seg := str_of "11/48.m4s" in
-  reps_wf reps /\
-  find_rep_rel media_search reps seg (Some (str_of "1", 48)) /\
-  find_rep_rel media_search reps seg (Some (str_of "11", 48)).
-Proof. exact find_rep_unanchored_refuted.
-Qed.
-Print Assumptions C07_find_rep_refuted.
-
-(** With the repaired pattern ^QuoteMeta(pre)(\d+)QuoteMeta(suf)$ it is a function whenever the
-    representations share the suffix part, the prefix parts end in a non-digit and determine the
-    representation. *)
+(** ... hence the representation and number found do not depend on the iteration order. *)
 Theorem C07_find_rep : forall reps seg res1 res2,
   reps_wf reps ->
   find_rep_rel media_match_anchored reps seg res1 -> find_rep_rel media_match_anchored reps seg res2 ->
@@ -177,13 +194,29 @@ Proof. exact find_rep_anchored_function.
 Qed.
 Print Assumptions C07_find_rep.
 
-(** What the repaired pattern accepts. *)
-Theorem C07_anchored_pattern : forall pre suf s ds,
-  media_match_anchored pre suf s = Some ds ->
-  s = pre ++ ds ++ suf /\ ds <> [] /\ forallb is_digit ds = true.
-Proof. exact media_match_anchored_spec.
+(** The hypothesis on the templates cannot be dropped: nothing between $RepresentationID$ and
+    $Number$, ids "a" and "a1", request a12.m4s (no such asset is bundled; recorded as an
+    assumption of the property, not as a finding). *)
+Theorem C07_find_rep_nosep_refuted :
+  let reps := [mkRep (str_of "a") (str_of "a") (str_of ".m4s"); mkRep (str_of "a1") (str_of "a1") (str_of ".m4s")] in
+  let seg := str_of "a12.m4s" in
+  find_rep_rel media_match_anchored reps seg (Some (str_of "a", 12)) /\
+  find_rep_rel media_match_anchored reps seg (Some (str_of "a1", 2)).
+Proof. exact find_rep_anchored_nosep_refuted.
 Qed.
-Print Assumptions C07_anchored_pattern.
+Print Assumptions C07_find_rep_nosep_refuted.
+
+(** As found (unanchored, unquoted) the look-up was not a function even for the usual template
+    (fixed finding c07-rep-id-substring): representations "1" and "11", request 11/48.m4s. *)
+Theorem C07_find_rep_asfound_refuted :
+  let reps := [rep_of_id "1"; rep_of_id "11"] in
+  let seg := str_of "11/48.m4s" in
+  reps_wf reps /\
+  find_rep_rel media_search reps seg (Some (str_of "1", 48)) /\
+  find_rep_rel media_search reps seg (Some (str_of "11", 48)).
+Proof. exact find_rep_unanchored_refuted.
+Qed.
+Print Assumptions C07_find_rep_asfound_refuted.
 
 (** Non-vacuity. *)
 Example C07_example_lookup :
